@@ -3,7 +3,7 @@
 //! case type and run the same oracle as the generated search.
 
 use crate::core::{CaseRec, Verdict};
-use crate::props::{c01, c05, c13};
+use crate::props::{c01, c02, c04, c05, c12, c13, c16, c19};
 use crate::sess::Intent;
 
 fn verdict_to_option(v: Verdict) -> Option<String> {
@@ -90,6 +90,211 @@ pub fn c01(data: &[u8]) -> Option<String> {
     verdict_to_option(c01_verdict(data))
 }
 
+// ---------------------------------------------------------------- structured decoders
+
+struct Bytes<'a> {
+    d: &'a [u8],
+    i: usize,
+}
+
+impl<'a> Bytes<'a> {
+    fn new(d: &'a [u8]) -> Self {
+        Bytes { d, i: 0 }
+    }
+    fn u8(&mut self) -> Option<u8> {
+        let b = self.d.get(self.i).copied();
+        self.i += 1;
+        b
+    }
+    fn u64(&mut self) -> u64 {
+        let mut v = [0u8; 8];
+        for x in v.iter_mut() {
+            *x = self.u8().unwrap_or(0);
+        }
+        u64::from_le_bytes(v)
+    }
+}
+
+/// C02: the bytes are a prefix-notation expression over the check's leaves.
+pub fn decode_expr(data: &[u8]) -> c02::ExprCase {
+    use crate::ast::{Expr, ALL_BINOPS, ALL_UNOPS};
+    fn build(b: &mut Bytes, leaves: &[Expr], depth: u32, nodes: &mut u32) -> Expr {
+        let x = b.u8().unwrap_or(0) as usize;
+        *nodes += 1;
+        if depth >= 10 || *nodes > 40 {
+            return leaves[x % leaves.len()].clone();
+        }
+        match x % 32 {
+            k @ 0..=12 => {
+                let l = build(b, leaves, depth + 1, nodes);
+                let r = build(b, leaves, depth + 1, nodes);
+                Expr::bin(ALL_BINOPS[k], l, r)
+            }
+            k @ 13..=15 => Expr::un(ALL_UNOPS[k - 13], build(b, leaves, depth + 1, nodes)),
+            16 => Expr::Abs(Box::new(build(b, leaves, depth + 1, nodes))),
+            17 => Expr::Int(Box::new(build(b, leaves, depth + 1, nodes))),
+            18 => Expr::Paren(Box::new(build(b, leaves, depth + 1, nodes))),
+            _ => leaves[(x / 32 + (x % 32 - 19) * 8) % leaves.len()].clone(),
+        }
+    }
+    let leaves = c02::leaves_random();
+    let mut b = Bytes::new(data);
+    let salt = b.u8().unwrap_or(0) as u64;
+    let mut nodes = 0;
+    c02::ExprCase { expr: build(&mut b, &leaves, 0, &mut nodes), salt }
+}
+
+pub fn c02_verdict(data: &[u8]) -> Verdict {
+    let mut rec = CaseRec::default();
+    c02::check_expr(&decode_expr(data), &mut rec)
+}
+
+/// C04: three-byte records (kind, number selector, spelling bits); a selector
+/// >= 248 takes eight more bytes as the line number.
+pub fn decode_edits(data: &[u8]) -> c04::Hist {
+    const POOL: &[u64] = &[0, 1, 9, 10, 4294967296, 9223372036854775808, 18446744073709551614, 18446744073709551615];
+    const PAYLOADS: &[&str] = &[
+        "PRINT 1", "X = X + 1 : PRINT X", "GOTO 3", "GOSUB 7", "RETURN", "FOR I = 1 TO 2", "NEXT I", "DATA 1, two, \"3\"", "READ V$ : PRINT V$", "END",
+        "REM x", "IF X < 3 THEN 1", "DIM Q(2)", "?\"s\";", "RESTORE", "STOP",
+    ];
+    let mut b = Bytes::new(data);
+    let mut ops = vec![];
+    while ops.len() < 80 {
+        let Some(k) = b.u8() else { break };
+        let sel = b.u8().unwrap_or(0);
+        let sp = b.u8().unwrap_or(0);
+        let num = if sel >= 248 {
+            b.u64()
+        } else if sel >= 200 {
+            POOL[(sel as usize - 200) % POOL.len()]
+        } else {
+            (sel % 12) as u64
+        };
+        let (zeros, blanks, gap) = (sp & 3, (sp >> 2) & 3, (sp >> 4) % 3);
+        let (zeros, blanks) = (zeros.min(2), blanks.min(2));
+        ops.push(match k % 22 {
+            0..=9 => {
+                let payload = if k >= 128 { Some(PAYLOADS[(sp >> 4) as usize % PAYLOADS.len()].to_string()) } else { None };
+                c04::Op::Enter { num, zeros, blanks, gap, payload }
+            }
+            10..=13 => c04::Op::Delete { num, zeros, blanks, trailing: gap },
+            14..=16 => c04::Op::Fail { num, zeros, kind: (sp >> 4) % 6 },
+            17 => c04::Op::Huge((sp >> 4) % 4),
+            18 | 19 => c04::Op::List,
+            _ => c04::Op::Run,
+        });
+    }
+    c04::Hist { ops }
+}
+
+pub fn c04_verdict(data: &[u8]) -> Verdict {
+    let mut rec = CaseRec::default();
+    c04::check(&decode_edits(data), &mut rec)
+}
+
+/// C12: records separated by 0x00; the first byte of a record tags it as free
+/// text, a string literal, or (last record only) a REM tail. Quotes never
+/// occur in free text, so the protected map is right by construction.
+pub fn decode_segline(data: &[u8]) -> c12::SegLine {
+    use c12::Seg;
+    let mut segs = vec![];
+    let recs: Vec<&[u8]> = data.split(|b| *b == 0).filter(|r| !r.is_empty()).take(12).collect();
+    let n = recs.len();
+    for (i, r) in recs.into_iter().enumerate() {
+        let text: String = String::from_utf8_lossy(&r[1..]).chars().filter(|c| *c != '"' && *c != '\n' && *c != '\u{fffd}').collect();
+        match r[0] % 8 {
+            0..=4 => segs.push(Seg::Free(text.chars().filter(|c| c.is_ascii()).collect())),
+            5 | 6 => {
+                segs.push(Seg::Free("\"".into()));
+                segs.push(Seg::Prot(text));
+                segs.push(Seg::Free("\"".into()));
+            }
+            _ => {
+                if i + 1 == n {
+                    segs.push(Seg::Free("REM".into()));
+                    segs.push(Seg::Prot(text));
+                } else {
+                    segs.push(Seg::Free(text.chars().filter(|c| c.is_ascii()).collect()));
+                }
+            }
+        }
+    }
+    c12::SegLine { segs: c12::normalize(segs), salt: data.len() as u64 }
+}
+
+pub fn c12_verdict(data: &[u8]) -> Verdict {
+    let mut rec = CaseRec::default();
+    c12::check(&decode_segline(data), &mut rec)
+}
+
+/// C16: the session decoding of C01, judged by the state invariants.
+pub fn c16_verdict(data: &[u8]) -> Verdict {
+    let mut s = decode_session(data);
+    s.verify_listing = false;
+    let mut rec = CaseRec::default();
+    c16::check_session(&s, &mut rec)
+}
+
+/// C19: records separated by 0x00: submit a line, CTRL-C, or timer ticks; the
+/// first record may be the program text loaded at start-up.
+pub fn decode_page(data: &[u8]) -> c19::PageHistory {
+    let mut events = vec![];
+    let mut load = None;
+    let mut seed = 0u64;
+    for (i, r) in data.split(|b| *b == 0).filter(|r| !r.is_empty()).take(60).enumerate() {
+        let text = String::from_utf8_lossy(&r[1..]).replace('\u{fffd}', "?");
+        match r[0] % 8 {
+            0..=3 => events.push(c19::PageEvent::Submit(text.replace('\n', " "))),
+            4 => events.push(c19::PageEvent::Break),
+            5 | 6 => {
+                for _ in 0..(1 + r.len() % 6) {
+                    events.push(c19::PageEvent::Tick);
+                }
+            }
+            _ => {
+                if i == 0 {
+                    load = Some(text);
+                } else {
+                    seed = r[1..].iter().fold(0u64, |a, b| a.wrapping_mul(257).wrapping_add(*b as u64));
+                    events.push(c19::PageEvent::Tick);
+                }
+            }
+        }
+    }
+    c19::PageHistory { load, seed, events }
+}
+
+pub fn c19_verdict(data: &[u8]) -> Verdict {
+    let mut rec = CaseRec::default();
+    c19::check(&decode_page(data), &mut rec)
+}
+
+pub fn c02(data: &[u8]) -> Option<String> {
+    verdict_to_option(c02_verdict(data))
+}
+pub fn c04(data: &[u8]) -> Option<String> {
+    verdict_to_option(c04_verdict(data))
+}
+pub fn c12(data: &[u8]) -> Option<String> {
+    verdict_to_option(c12_verdict(data))
+}
+pub fn c16(data: &[u8]) -> Option<String> {
+    verdict_to_option(c16_verdict(data))
+}
+/// The adapter's traps are caught and judged by the oracle; libFuzzer's own
+/// panic hook would abort at the first caught panic, so it is replaced once.
+/// The recorded known finding (start-up loader ignores errors) is excluded by
+/// construction here, otherwise every campaign would end on it; any other
+/// failure key is reported.
+pub fn c19(data: &[u8]) -> Option<String> {
+    static HOOK: std::sync::Once = std::sync::Once::new();
+    HOOK.call_once(crate::core::install_quiet_panic_hook);
+    match c19_verdict(data) {
+        Verdict::Fail { key, .. } if key == "loader-ignores-errors" => None,
+        v => verdict_to_option(v),
+    }
+}
+
 /// Writes a small seed corpus for `target` into `dir`.
 pub fn emit_corpus(target: &str, dir: &std::path::Path) -> std::io::Result<usize> {
     std::fs::create_dir_all(dir)?;
@@ -129,6 +334,40 @@ pub fn emit_corpus(target: &str, dir: &std::path::Path) -> std::io::Result<usize
             for (i, chunk) in lines.chunks(6).enumerate().take(60) {
                 put(format!("doc{}", i), chunk.iter().enumerate().map(|(k, l)| format!("{} {}", (k + 1) * 10, l)).collect::<Vec<_>>().join("\n").into_bytes())?;
             }
+        }
+        "c02_expr" => {
+            for i in 0..64u8 {
+                put(format!("e{}", i), vec![i, i.wrapping_mul(7), i.wrapping_mul(13) % 13, 200 + i % 50, i % 19, 77, 3, 250, 19, 140])?;
+            }
+        }
+        "c04_edits" => {
+            put("basic".into(), vec![0, 10, 0, 128, 5, 0x10, 10, 10, 0, 14, 3, 0x20, 18, 0, 0, 20, 0, 0, 0, 207, 1, 0, 250, 0, 255, 255, 255, 255, 255, 255, 255, 255, 20, 0, 0])?;
+            for i in 0..32u8 {
+                put(format!("h{}", i), (0..30).map(|k| i.wrapping_mul(31).wrapping_add(k * 17)).collect())?;
+            }
+        }
+        "c12_perturb" => {
+            for (i, l) in lines.iter().enumerate().take(200) {
+                let mut v = vec![];
+                for (k, part) in l.split('"').enumerate() {
+                    v.push(0);
+                    v.push(if k % 2 == 0 { 1 } else { 5 });
+                    v.extend(part.as_bytes());
+                }
+                put(format!("line{}", i), v)?;
+            }
+            put("sci".into(), b"\x01X=5e-3+SCORE<=2\x00\x05a b\x00\x07 tail".to_vec())?;
+        }
+        "c19_page" => {
+            let mut s: Vec<u8> = vec![7];
+            s.extend(b"10 PRINT \"x\" : INPUT Q\n20 GOTO 10");
+            for l in ["RUN", "5", "abc", "NEW", "LIST", "TRACE", "20 STOP", "CONT"] {
+                s.extend([0, 0]);
+                s.extend(l.as_bytes());
+                s.extend([0, 5, 1, 1, 0, 4]);
+            }
+            put("page0".into(), s)?;
+            put("page1".into(), b"\x00 10 GOTO 10\x00\x00RUN\x00\x05aaa\x00\x04\x00\x00CONT\x00\x05\x00\x00\xf0\x9f\x92\xa5".to_vec())?;
         }
         _ => {
             // sessions: a few programs typed, RUN, replies, breaks
